@@ -43,22 +43,33 @@ TAddParent == Ev("AddParent") /\ Step /\ Rec[l].ok /\ AddParent(Rec[l].p, Rec[l]
 TConnectAll == Ev("ConnectAll") /\ Step /\ ConnectAll
 TAddRecord == Ev("AddRecord") /\ Step /\ AddRecord(Rec[l].k, Rec[l].x)
 TAnnotate == Ev("Annotate") /\ Step /\ Rec[l].ok /\ Annotate(Rec[l].k, Rec[l].x, Rec[l].t)
+(* C15: a call that reported DoesNotExist - a referenced term must really be absent, and the call  *)
+(* is a stuttering step of the builder state (nfact is the ghost counter that names records)       *)
+TAddParentRejected ==
+  /\ Ev("AddParent") /\ Step /\ ~Rec[l].ok
+  /\ phase = "all" /\ (Rec[l].p \notin Terms \/ Rec[l].c \notin Terms)
+  /\ UNCHANGED coreVars
+TAnnotateRejected ==
+  /\ Ev("Annotate") /\ Step /\ ~Rec[l].ok
+  /\ phase = "connected" /\ Rec[l].t \notin Terms
+  /\ nfact' = nfact + 1
+  /\ UNCHANGED <<phase, arena, parents, children, allp, ann, rec, ic, bmode>>
 
 (* --- observations ------------------------------------------------------ *)
 StructOf(t) == [id |-> t.id, parents |-> t.parents, children |-> t.children, allp |-> t.allp]
 AnnOf(t) == [id |-> t.id, gene |-> t.gene, omim |-> t.omim, orpha |-> t.orpha]
-LoggedStructOk(t) == t.rallp = t.allp
+LoggedStructOk(t) == t.rallp = t.allp /\ t.rparents = t.parents /\ t.rchildren = t.children
 LoggedAnnOk(t) == t.rgene = t.gene /\ t.romim = t.omim /\ t.rorpha = t.orpha      \* resolving iterators agree
 
 BuiltMatches(p) ==
   LET want == Proj IN
   /\ p.len = Len(arena)
   /\ Len(p.terms) = Len(arena)
-  /\ (Focus = "C01") =>
+  /\ (Focus \in {"C01", "C15"}) =>
        /\ {StructOf(t) : t \in Range(p.terms)} = {StructOf(t) : t \in Range(want.terms)}
        /\ \A t \in Range(p.terms) : LoggedStructOk(t)
   /\ (Focus = "C03") => p.ic_bad = <<>>        \* IC = -ln(n/N) on the ontology's own n and N (checked by the recorder)
-  /\ (Focus = "C02") =>
+  /\ (Focus \in {"C02", "C15"}) =>
        /\ {AnnOf(t) : t \in Range(p.terms)} = {AnnOf(t) : t \in Range(want.terms)}
        /\ \A t \in Range(p.terms) : LoggedAnnOk(t)
        /\ p.gene = want.gene /\ p.omim = want.omim /\ p.orpha = want.orpha
@@ -89,7 +100,7 @@ SubMatches(ev) ==
   /\ \E ch \in [leaves -> AllPaths] :
         /\ \A lf \in leaves : ch[lf] \in ShortestUpPaths(parents, lf, root)
         /\ T = leaves \cup UNION {Range(ch[lf]) : lf \in leaves}
-  /\ (Focus = "C01") =>
+  /\ (Focus \in {"C01", "C15"}) =>
        \A t \in T :
           /\ par[t] = parents[t] \cap T                                  \* induced is_a edges
           /\ Range(term(t).children) = ChildrenOf(par, t)                \* inverse relation
@@ -103,7 +114,7 @@ SubMatches(ev) ==
            phenoT == {t \in T : allp[t] \cap mods = {}}
        IN \A k \in Kinds : {r.id : r \in Range(recsOf(k))} = {x \in DOMAIN rec[k] : rec[k][x].hpos \cap phenoT # {}}
   /\ (Focus = "C03") => p.ic_bad = <<>>
-  /\ (Focus = "C02") =>
+  /\ (Focus \in {"C02", "C15"}) =>
        /\ \A k \in Kinds : \A r \in Range(recsOf(k)) :
              /\ r.id \in DOMAIN rec[k]                                    \* only records of the source
              /\ Range(r.hpos) = rec[k][r.id].hpos \cap T                  \* direct terms, restricted to the sub-ontology
@@ -153,7 +164,7 @@ QueryMatches(ev) ==
 
 TQuery == Ev("Query") /\ Step /\ phase = "connected" /\ QueryMatches(Rec[l]) /\ UNCHANGED coreVars
 
-TNext == TReset \/ TNewTerm \/ TTermsComplete \/ TAddParent \/ TConnectAll \/ TAddRecord \/ TAnnotate \/ TBuilt \/ TSub \/ TSubErr \/ TQuery
+TNext == TReset \/ TNewTerm \/ TTermsComplete \/ TAddParent \/ TAddParentRejected \/ TConnectAll \/ TAddRecord \/ TAnnotate \/ TAnnotateRejected \/ TBuilt \/ TSub \/ TSubErr \/ TQuery
 
 TSpec == TInit /\ [][TNext]_tvars
 
